@@ -85,6 +85,8 @@ type Exec struct {
 	unsupp    []string
 	ghostSeen map[*ssa.Range]string
 	floatOps  [][2]*Term
+	assertN   int
+	assertsHit map[string]bool
 	warn      []string
 }
 
@@ -111,6 +113,8 @@ type frame struct {
 	dbg      map[types.Object][]*ssa.DebugRef
 	retIdx   int
 	deferRun bool
+	assertDone map[string]bool
+	assertHit  bool
 }
 
 type deferred struct {
@@ -659,9 +663,12 @@ func (ex *Exec) runBody(fr *frame, st0 *State, reach0 *Term) []*exit {
 		cur := &blockOut{st: st, reach: reach}
 		outs[b.Index] = cur
 		terminated := false
-		for _, instr := range b.Instrs {
+		for ii, instr := range b.Instrs {
 			if _, ok := instr.(*ssa.Phi); ok {
 				continue
+			}
+			if fc != nil && len(fc.Asserts) > 0 {
+				ex.checkAsserts(fr, fc, cur.st, cur.reach, b, ii, instr)
 			}
 			switch in := instr.(type) {
 			case *ssa.If:
@@ -994,4 +1001,38 @@ func funcKey(fn *ssa.Function) string {
 	}
 	// methods of instantiated or external types without package (wrappers): use String()
 	return fn.String()
+}
+
+// checkAsserts: program-point assertions anchored at a source line (the first instruction of the line in a block).
+func (ex *Exec) checkAsserts(fr *frame, fc *FuncContract, st *State, reach *Term, b *ssa.BasicBlock, idx int, instr ssa.Instruction) {
+	if _, isDbg := instr.(*ssa.DebugRef); isDbg || !instr.Pos().IsValid() {
+		return
+	}
+	p := ex.eng.fset.Position(instr.Pos())
+	line := ex.eng.sourceLine(p.Filename, p.Line)
+	for ai, a := range fc.Asserts {
+		if !strings.Contains(line, a.Anchor) {
+			continue
+		}
+		key := fmt.Sprintf("%d/%d/%d", ai, p.Line, b.Index)
+		if fr.assertDone == nil {
+			fr.assertDone = map[string]bool{}
+		}
+		if fr.assertDone[key] {
+			continue
+		}
+		fr.assertDone[key] = true
+		old := fr.old
+		if old == nil {
+			old = st
+		}
+		se := ex.specEnvFor(fr, st, old, reach, b)
+		se.beforeIdx = idx
+		g := se.evalBool(a.Clause.Expr)
+		ex.assertN++
+		ex.vc.Oblige(&Obligation{Name: fmt.Sprintf("%s/assert#%d@b%d", relName(fr.fn), ai, b.Index), Kind: "assert", Tags: a.Clause.Tags, Guard: reach, Goal: g, Func: relName(ex.top), Pos: fmt.Sprintf("%s:%d", a.Clause.File, a.Clause.Line), Note: a.Clause.Text})
+		ex.vc.Assume(reach, g)
+		fr.assertHit = true
+		ex.assertsHit[fmt.Sprintf("%s#%d", funcKey(fr.fn), ai)] = true
+	}
 }
